@@ -317,7 +317,7 @@ func (e *vEval) UltCheck() ([]logic.Action, error) {
 // ---- event logger ----
 type simLogger struct{ r *simRun }
 
-func pairs(st []event.TurnStatus) term.T {
+func simPairs(st []event.TurnStatus) term.T {
 	out := []term.T{}
 	for _, s := range st {
 		out = append(out, term.Tup(term.I(int64(s.ID)), term.I(s.Gauge)))
@@ -369,7 +369,7 @@ func (l *simLogger) Log(e any) {
 	case event.BattleStart:
 		r.rec(term.C("VBattleStart"))
 	case event.TurnStart:
-		r.rec(term.C("VTurnStart", I(v.Active), term.F(v.DeltaAV), term.F(v.TotalAV), pairs(v.TurnOrder)))
+		r.rec(term.C("VTurnStart", I(v.Active), term.F(v.DeltaAV), term.F(v.TotalAV), simPairs(v.TurnOrder)))
 	case event.Phase1Start:
 		r.rec(term.C("VPhase1Start"))
 	case event.Phase1End:
@@ -381,7 +381,7 @@ func (l *simLogger) Log(e any) {
 	case event.TurnEnd:
 		r.rec(term.C("VTurnEnd", statIDs(v.Characters), statIDs(v.Enemies)))
 	case event.TurnReset:
-		r.rec(term.C("VTurnReset", I(v.ResetTarget), pairs(v.TurnOrder)))
+		r.rec(term.C("VTurnReset", I(v.ResetTarget), simPairs(v.TurnOrder)))
 	case event.ActionStart:
 		r.rec(term.C("VActionStart", I(v.Owner), term.I(int64(v.AttackType)), term.B(v.IsInsert)))
 	case event.ActionEnd:
